@@ -139,7 +139,7 @@ class C10(Check):
     prop = 'C10'
     technique = COMP_TECH
     level_note = COMP_NOTE
-    rule = ('every sequence of <=D operations (D=5 quick, 7 thorough) on a real ResourceManager + real Environment (pools a:2, b:1) '
+    rule = ('every sequence of <=D operations (D=5 quick, 6 thorough) on a real ResourceManager + real Environment (pools a:2, b:1) '
             'from {reserve_resources_with_callback(request in {a:1},{a:2},{a:1,b:1}; callback that does nothing / reserves the '
             'request / reserves it and registers a new waiter / adds capacity from inside), direct reserve, full release of any live reservation, '
             'add_resources(a|b, +-1), "drain the current instant" (real step() until the instant is exhausted), "advance" (real '
@@ -151,7 +151,7 @@ class C10(Check):
     nontrivial = _fact_nontrivial('served_several_in_order', 'clock_advanced')
 
     def jobs(self, tier):
-        D = 5 if tier == 'quick' else 7
+        D = 5 if tier == 'quick' else 6
         params = {'depth': D, 'adds': [['a', 1], ['a', -1], ['b', 1], ['b', -1]],
                   'requests': [{'a': 1}, {'a': 2}, {'a': 1, 'b': 1}], 'pools': [['a', 2], ['b', 1]],
                   'kinds': ['noop', 'take', 'again', 'give']}
